@@ -131,21 +131,28 @@ def strip_comments(src: str) -> str:
     return "\n".join(l.split("--")[0] for l in src.splitlines())
 
 
-def lean_sources() -> list:
-    out = []
-    for d, _, fs in os.walk(os.path.join(LEAN_ROOT, "OFCore")):
-        for f in fs:
-            if f.endswith(".lean"):
-                out.append(os.path.join(d, f))
-    for f in os.listdir(os.path.join(LEAN_ROOT, "Drivers")):
-        if f.endswith(".lean"):
-            out.append(os.path.join(LEAN_ROOT, "Drivers", f))
-    return sorted(out)
+def _module_path(mod: str) -> str:
+    return os.path.join(LEAN_ROOT, *mod.split(".")) + ".lean"
 
 
-def syntactic_audit() -> list:
+def lean_sources(roots: list) -> list:
+    """The project files the given modules transitively import (plus themselves)."""
+    seen: dict = {}
+    todo = list(roots)
+    while todo:
+        mod = todo.pop()
+        path = _module_path(mod)
+        if mod in seen or not os.path.exists(path):
+            continue
+        seen[mod] = path
+        for m in re.finditer(r"^import\s+((?:OFCore|Drivers)[\w.]*)", open(path).read(), flags=re.M):
+            todo.append(m.group(1))
+    return sorted(seen.values())
+
+
+def syntactic_audit(roots: list) -> list:
     hits = []
-    for path in lean_sources():
+    for path in lean_sources(roots):
         for i, l in enumerate(strip_comments(open(path).read()).splitlines(), 1):
             if FORBIDDEN.search(l):
                 hits.append(f"{os.path.relpath(path, LEAN_ROOT)}:{i}: {l.strip()[:100]}")
@@ -341,7 +348,9 @@ def run_check(modname: str, tier: str, seed: int, replay: Optional[str] = None) 
     build_ok, build_log = lake_build(prop.lean_targets)
     if not build_ok:
         log("proof build FAILED\n" + build_log[-2500:])
-    syn = syntactic_audit()
+    driver_mod = "Drivers." + {"heap": "Heap"}.get(prop.driver.split("_")[1], prop.driver.split("_")[1].capitalize())
+    audit_roots = [t for t in prop.lean_targets if t.startswith("OFCore.")] + [driver_mod]
+    syn = syntactic_audit(audit_roots)
     ax, ax_log = axiom_audit(pid) if build_ok else ({t: None for t in theorems_of(pid)}, "")
     bad_ax = {t: a for t, a in ax.items() if a is None or not set(a) <= ALLOWED_AXIOMS}
     obligations = len(ax)
@@ -496,6 +505,7 @@ def run_check(modname: str, tier: str, seed: int, replay: Optional[str] = None) 
                            + (" && " + leanchecker["cmd"] if leanchecker else ""),
             "trusted_base": TRUSTED_BASE,
             "theorems": {t: a for t, a in ax.items()},
+            "audited_files": [os.path.relpath(p, LEAN_ROOT) for p in lean_sources(audit_roots)],
             "partial_theorems": prop.partial_theorems,
             "evaluations": len(outs), "distinct_nontrivial": distinct, "rule": prop.rule,
             "samples": samples, "input_histogram": hist, "impl_outcomes": outcome_hist,
